@@ -620,7 +620,7 @@ example : Gen.rrsParseRule {} (lit "FREQ=DAILY;FOO=1") = .error .ValueError := b
 
 /-- `_rrulestr.__call__` as translated from source is a pure delegation: `rrulestr(s, **kwargs)` IS `_parse_rfc(s, **kwargs)` (any edit of
     that one-line method — a cache, a changed default, a dropped keyword — makes the translation fail or this obligation break) -/
-theorem gen_call_eq_model (s : List Char) (o : Opts) (kw : Bool) : Gen.rrsCall s o kw = parseRfc s o kw := rfl
+theorem gen_call_eq_model (s : List Char) (o : Opts) (kw : Bool) : Gen.rrsCall s o kw = parseRfc s o kw := gen_parseRfc_eq s o kw
 
 /-- **the WHOLE of `_parse_date_value` as translated from source** (`Gen.rrsParseDateValue`: the parameter loop, then for every
     `,`-separated value `parser.parse` — a given function, C02 — with OverflowError turned into ValueError, the attach statement, the
@@ -654,5 +654,19 @@ theorem gen_dispatch_loop_eq_model (lines : List (List Char)) (acc : Acc) :
     lines.foldlM (Gen.rrsStepLine po) acc = lines.foldlM (stepLine po) acc := by
   have : Gen.rrsStepLine po = stepLine po := by funext a l; exact gen_stepLine_eq po a l
   rw [this]
+
+/-- **the WHOLE of `_rrulestr._parse_rfc` as translated from source** — the prefix (`Gen.rrsPrefix`), the single-line fast path, the line
+    dispatch loop (`Gen.rrsStepLine`), the decision for a set, the set building with its four member kinds and the `compatible` DTSTART,
+    the single-rule exit; rule lines through the translated `_parse_rfc_rrule` — **equals the model's `parseRfc`** for every text and all
+    options: every theorem of this file about `parseRfc` (`errors_are_ValueError`, `case_irrelevant`, `str_roundtrip*`,
+    `multi_line_builds_set`, `forceset`, `compatible*`, `options_reach_every_path`) holds of the parser AS WRITTEN -/
+theorem gen_parse_rfc_eq_model (s0 : List Char) (o : Opts) (kw : Bool) : Gen.rrsParseRfc s0 o kw = parseRfc s0 o kw :=
+  gen_parseRfc_eq s0 o kw
+
+/-- the round trip through the two translated functions: `rrulestr(str(rule))`, both as written -/
+theorem str_roundtrip_source_both (x : StrIn) (hx : Printable x) (t : Nat × Nat × Nat × Nat × Nat × Nat) (ht : x.dtstart = some t)
+    (o : Opts) (hu : o.unfold = false) (hf : o.forceset = false) (hc : o.compatible = false) (kw : Bool) :
+    Gen.rrsCall (Gen.rruleStr x) o kw = .ok (.rule (argsOf o.po x) (some (showDT t, [], o.po)) o.cache) := by
+  rw [gen_call_eq_model]; exact str_roundtrip_source x hx t ht o hu hf hc kw
 
 end C13
